@@ -435,17 +435,20 @@ class Crate:
 
 
 class Facts:
-    def __init__(self, directory, names=None):
+    def __init__(self, directory, names=None, fallback=None):
         self.dir = directory
         self.crates = {}
-        for fn in sorted(os.listdir(directory)):
-            if not fn.endswith(".json") or fn == "grammar.json":
-                continue
-            key = fn[:-5]
-            if names is not None and key not in names:
-                continue
-            with open(os.path.join(directory, fn)) as fh:
-                self.crates[key] = Crate(json.load(fh))
+        for d in ([directory] + ([fallback] if fallback else [])):
+            for fn in sorted(os.listdir(d)):
+                if not fn.endswith(".json") or fn == "grammar.json":
+                    continue
+                key = fn[:-5]
+                if names is not None and key not in names:
+                    continue
+                if key in self.crates:
+                    continue        # a crate built in this configuration wins over the default build
+                with open(os.path.join(d, fn)) as fh:
+                    self.crates[key] = Crate(json.load(fh))
         self._callers = None
 
     def grammar(self):
